@@ -14,4 +14,10 @@ theorem cuckoo_with_properties_eq (bs : Nat) (load p : α) (n : Nat) :
   by_cases hn : 1 ≤ n <;> by_cases h0 : (0 : α) < p <;> by_cases h1 : p < 1 <;>
     simp [hn, h0, h1, failure, bind, pure, KOps.nextPow2, nextPow2]
 
+/-- the constants the two public wrappers pass on: `with_properties_4` = (4, 0.95), `with_properties_8` = (8, 0.98) -/
+theorem cuckoo_props4_consts_eq (p : α) (n : Nat) : cuckoo_props4_consts p n = (4, (95 : α) / 100) := by
+  simp only [cuckoo_props4_consts, lit_eq]; norm_num
+theorem cuckoo_props8_consts_eq (p : α) (n : Nat) : cuckoo_props8_consts p n = (8, (98 : α) / 100) := by
+  simp only [cuckoo_props8_consts, lit_eq]; norm_num
+
 end Pds.KernelTie
